@@ -148,6 +148,27 @@ func c19(c *Ctx) {
 					}
 				}
 			}
+			// nothing the private Conn writes through may be shared between renderings: two keys of one
+			// PreparedMessage are rendered concurrently (the per-key sync.Once serialises only equal keys)
+			for f, v := range got {
+				switch f.Type().Underlying().(type) {
+				case *types.Slice, *types.Pointer, *types.Map, *types.Chan:
+					root := strip(v)
+					for root.Kind == core.KSlice {
+						root = strip(root.Args[0])
+					}
+					fresh := root.Kind == core.KMake || root.Kind == core.KAlloc || root.IsNil()
+					if root.Kind == core.KOpaque {
+						switch root.Ref.(type) {
+						case *ssa.MakeChan, *ssa.MakeMap, *ssa.MakeSlice:
+							fresh = true
+						}
+					}
+					if !fresh {
+						ok2, why2 = false, "the rendering Conn's "+f.Name()+" is "+v.String()+", memory that outlives this rendering: renderings of different keys run concurrently and would build their frames in the same buffer"
+					}
+				}
+			}
 			keyField := func(t *core.Term, f *types.Var) bool {
 				return t != nil && ((t.Kind == core.KLoad && t.Args[0].Kind == core.KFieldAddr && t.Args[0].Var == f) || (t.Kind == core.KField && t.Var == f))
 			}
